@@ -89,7 +89,10 @@ def impl_line(names, nsteps, cfgnames, z0_forcing):
 def adversarial(rng, shape):
     """float64 bit patterns: +-0, denormals, +-1e308, negatives, ordinary values (NaN-free)"""
     n = int(np.prod(shape))
-    pool = [0.0, -0.0, 5e-324, -5e-324, 2.2250738585072014e-308, 1e308, -1e308, 1.7976931348623157e308, 1e-300, -3.5, 1 / 3, 9.96920996838687e36]
+    # ... and the numbers that file formats and data conventions use as "missing value" sentinels: as ordinary field values they
+    # must come back as themselves (-9999 FLUXNET/AmeriFlux, -999, -32767/-32768 packed shorts, 1e20 / 1e36 / 9.969e36 netCDF & friends)
+    pool = [0.0, -0.0, 5e-324, -5e-324, 2.2250738585072014e-308, 1e308, -1e308, 1.7976931348623157e308, 1e-300, -3.5, 1 / 3, 9.96920996838687e36,
+            -9999.0, -999.0, -32767.0, -32768.0, 1e20, 1e36, 9999.0, -9999.9, 65535.0, -1.0]
     v = np.where(rng.random(n) < 0.4, rng.choice(pool, n), rng.normal(size=n) * 10 ** rng.uniform(-20, 20, n))
     return v.reshape(shape)
 
@@ -133,14 +136,15 @@ def o_roundtrip(case):
                     if rng.random() < (0.7 if (k == 0 and t == 0) else 0.4):
                         flx_a = np.nan_to_num(flx_a.astype(np.float32), posinf=3e38, neginf=-3e38)
             series.append(dict(grid=(X, Y, Z), conc=conc_a, flx=flx_a, tower_name=n, timestamp=ts,
-                               params=dict(ustar=None if z0f else float(rng.uniform(0.1, 1)), mol=float(rng.normal() * 100), wind_speed=float(rng.uniform(1, 9)),
+                               params=dict(ustar=None if z0f else float(rng.uniform(0.1, 1)),
+                                           mol=float(rng.choice([rng.normal() * 100, -9999.0, 1e20, -999.0])), wind_speed=float(rng.uniform(1, 9)),
                                            wind_dir=float(rng.uniform(0, 360)), **({"z0": 0.07} if z0f else {}))))
         if case.get("np_params") and k == 0:
             # met series that came out of numpy arrays / data frames: the per-step values are numpy scalars of various types, 0-d
             # arrays or Python ints - still the same NUMBERS (all exactly representable, so that the stored float64 is equal)
             for t in range(ns):
                 pr = series[t]["params"]
-                pr["mol"] = [np.float32(-128.5), np.float64(250.25), np.array(64.0), int(-300)][(t + case["seed"]) % 4]
+                pr["mol"] = [np.float32(-128.5), np.float64(250.25), np.array(64.0), int(-9999)][(t + case["seed"]) % 4]
                 pr["wind_speed"] = [np.array(3.5), np.float32(2.25), int(4), np.int64(6)][(t + case["seed"]) % 4]
                 pr["wind_dir"] = [np.int64(280), int(45), np.float32(112.5), np.array(7.0)][(t + case["seed"]) % 4]
                 if not z0f:
